@@ -38,6 +38,47 @@ CHECKS = {
                      "a stale table shows up as terms over the old parameter symbols.",
                 ref="DESIGN.md section 4 C17"),
 }
+
+CHECKS.update({
+    "C02": dict(technique=_SYM + "per-path raise/warn outcome vs. a by-label balance oracle; comparison kernels merged into ite terms; NaN by explicit flags",
+                text="For every enumerated system graph, flow dimensionality, stock attachment and mode the solver shows, on every path check_mass_balance / check_flows take, that the "
+                     "outcome (raise / warning / success, processes and flows named) agrees with the oracle balance for ALL values and tolerances, incl. the default tolerance and NaN flags; "
+                     "a history harness re-checks after the values changed.",
+                ref="DESIGN.md section 4 C02"),
+    "C04": dict(technique=_SYM + "metamorphic: the same symbols under the same labels in every storage order; results compared by label",
+                text="Every operation is run in canonical order and in every permutation of every participating array (incl. targets, DataFrame round trips, stacking, lifetime "
+                     "parameters); results must agree by label for all values and follow the documented result order.",
+                ref="DESIGN.md section 4 C04"),
+    "C11": dict(technique=_SYM + "symbolic DataFrame cells through real pandas; int()/hash() of a cell are solver case splits over the numeric dimension items",
+                text="to_df / from_df run through real pandas with symbolic cells for every layout x header style x permutation in the bound; every imported entry must be the identical "
+                     "symbol of the row carrying its labels; value/item confusion paths are explored by case splits.",
+                ref="DESIGN.md section 4 C11", note="CSV text round trip outside. Known findings listed in known_findings.txt."),
+    "C12": dict(technique=_SYM + "enumerated data faults (single and pairs, every position) x symbolic cell values and old target values",
+                text="Fault positions are enumerated (that part is fault enumeration); for each, the solver-side run shows for all values that faulty data is refused under the flags "
+                     "that require it, that a failed import leaves the target identical, and that tolerated faults give zeros / ignored rows with every other entry in place.",
+                ref="DESIGN.md section 4 C12"),
+    "C13": dict(technique=_SYM + "inductive step from an arbitrary valid array state over a catalogue of well-formed and ill-formed calls",
+                text="From an arbitrary state (all values symbolic) every catalogue operation keeps values.shape == dims.shape with distinct letters, and every ill-formed call raises and "
+                     "leaves every array with identical terms and dimensions; pairs/triples of failed and successful calls are run in addition.",
+                ref="DESIGN.md section 4 C13"),
+    "C14": dict(technique="symbolic execution of DimensionSet with symbolic dimension letters (str subclass whose equality is a solver decision); ordered-list model under the path condition",
+                text="One path stands for every alphabet with that equality pattern between letters: all pairs of sets up to size 3 (4), every operator, lookup and mutator, in-place and "
+                     "out-of-place, with independence probes and 2-(3-)step histories, compared with an ordered-list model.",
+                ref="DESIGN.md section 4 C14"),
+    "C15": dict(technique=_SYM + "snapshot by term identity and write-through probes over the operation catalogue",
+                text="For every catalogue operation: inputs hold the identical terms and Dimension objects afterwards (for all values, every path); fresh symbols written into a result, and "
+                     "in-place edits of its dimension set, never appear in an input and vice versa.",
+                ref="DESIGN.md section 4 C15"),
+    "C19": dict(technique=_SYM + "identical-symbol placement in the exported dict / frames; DataFrame.to_csv replaced by a recorder",
+                text="convert_to_dict (numpy and pandas), CSV exports (one frame per flow / stock quantity, sanitised distinct file names) and re-import through from_df are checked "
+                     "cell by cell on symbolic systems; exporting leaves the system's terms unchanged.",
+                ref="DESIGN.md section 4 C19", note="CSV text, pickle bytes and MFADefinition.to_dfs are outside the claim."),
+    "C20": dict(technique=_SYM + "identical-symbol y/x/link values read from the real plotly figure objects and from recorded matplotlib calls",
+                text="Sankey links (value = slice total, per item when split, source/target node indices, exclusions) and array-plot traces (y entries and x values per subplot and line "
+                     "item, by name or letter, with and without x arrays) are compared with by-label oracles for all values.",
+                ref="DESIGN.md section 4 C20", note="rendering outside; matplotlib at the Axes-call boundary."),
+})
+
 NOT_APPLICABLE = {
     "C18": "building a system is pure assembly through pydantic-core validation and compiled file parsers; every input that could be symbolic "
            "(names, letters, ids, file text) is rebuilt as a concrete str/int before any flodym line sees it, so no symbolic state reaches the code "
